@@ -11,9 +11,14 @@ package c05
 import (
 	"encoding/json"
 	"fmt"
+	"io"
+	"os"
+	"os/exec"
+	"path/filepath"
 	"runtime"
 	"strings"
 	"sync"
+	"sync/atomic"
 	"time"
 
 	"github.com/sarchlab/akita/v5/timing"
@@ -31,9 +36,10 @@ type Ev struct {
 type input struct {
 	Par    bool            `json:"par"`
 	Init   []Ev            `json:"init"`
-	Prog   map[string][]Ev `json:"prog"` // event id -> events its handler schedules
-	Scn    string          `json:"scn"`  // inflight | idle | stress
-	K      uint64          `json:"k"`    // inflight: the gated event
+	Prog   map[string][]Ev `json:"prog"`             // event id -> events its handler schedules
+	Scn    string          `json:"scn"`              // inflight | idle | stress | live
+	Cycles int             `json:"cycles,omitempty"` // live: number of Pause / spin / Continue cycles
+	K      uint64          `json:"k"`                // inflight: the gated event
 	NPause int             `json:"npause"`
 	Spin   int             `json:"spin"` // stress: handler busy-loop bound
 	Gap    int             `json:"gap"`  // stress: controller busy-loop bound
@@ -50,6 +56,132 @@ type obs struct {
 	Early bool    `json:"early"`
 	Done  bool    `json:"done"`
 	Note  string  `json:"note,omitempty"`
+	// live scenario
+	CyclesDone int  `json:"cycles_done,omitempty"`
+	Stuck      bool `json:"stuck,omitempty"`
+	Revived    bool `json:"revived_by_second_continue,omitempty"`
+}
+
+// ---- liveness stress (run in a subprocess: a stuck engine is an observation) ----
+
+type chainEvent struct {
+	t timing.VTimeInPicoSec
+}
+
+func (e chainEvent) Time() timing.VTimeInPicoSec { return e.t }
+func (e chainEvent) HandlerID() string           { return "h" }
+func (e chainEvent) IsSecondary() bool           { return false }
+
+type chainHandler struct {
+	eng     timing.Engine
+	handled atomic.Int64
+	stop    atomic.Bool
+}
+
+func (h *chainHandler) Handle(e timing.Event) error {
+	h.handled.Add(1)
+	if !h.stop.Load() {
+		h.eng.Schedule(chainEvent{e.Time() + 1})
+	}
+	return nil
+}
+
+// live: a self-rescheduling event chain runs in Run(); this goroutine does Pause, a tiny
+// random spin, Continue, and then requires the handled counter to advance.
+func live(in input) obs {
+	var eng timing.Engine
+	if in.Par {
+		eng = timing.NewParallelEngine()
+	} else {
+		eng = timing.NewSerialEngine()
+	}
+	h := &chainHandler{eng: eng}
+	eng.(timing.HandlerRegistrar).RegisterHandler("h", h)
+	eng.Schedule(chainEvent{1})
+	done := make(chan struct{})
+	go func() {
+		_ = eng.Run()
+		close(done)
+	}()
+	r := hx.NewRand(in.Seed)
+	o := obs{}
+	progressed := func(from int64, d time.Duration) bool {
+		deadline := time.Now().Add(d)
+		for i := 0; h.handled.Load() == from; i++ {
+			if time.Now().After(deadline) {
+				return false
+			}
+			if i > 200 {
+				runtime.Gosched()
+			}
+		}
+		return true
+	}
+	for k := 0; k < in.Cycles; k++ {
+		eng.Pause()
+		busy(r.Intn(60))
+		before := h.handled.Load()
+		eng.Continue()
+		if !progressed(before, 3*time.Second) {
+			o.Stuck = true
+			// a lost wake-up (not a deadlock) is revived by a redundant Continue
+			eng.Continue()
+			o.Revived = progressed(before, 2*time.Second)
+			break
+		}
+		o.CyclesDone++
+	}
+	h.stop.Store(true)
+	if o.Stuck && !o.Revived {
+		return o
+	}
+	select {
+	case <-done:
+		o.Done = !o.Stuck
+	case <-time.After(5 * time.Second):
+	}
+	return o
+}
+
+func child() {
+	var in input
+	b, err := os.ReadFile(os.Args[2])
+	if err != nil || json.Unmarshal(b, &in) != nil {
+		os.Exit(3)
+	}
+	o := live(in)
+	ob, _ := json.Marshal(o)
+	os.WriteFile(os.Args[3], ob, 0o644)
+}
+
+func liveChild(raw json.RawMessage) obs {
+	dir, err := os.MkdirTemp("", "c05-")
+	if err != nil {
+		return obs{Note: err.Error()}
+	}
+	defer os.RemoveAll(dir)
+	inf, outf := filepath.Join(dir, "in.json"), filepath.Join(dir, "out.json")
+	os.WriteFile(inf, raw, 0o644)
+	self, _ := os.Executable()
+	cmd := exec.Command(self, "c05child", inf, outf)
+	cmd.Stdout, cmd.Stderr = io.Discard, io.Discard
+	fin := make(chan error, 1)
+	if err := cmd.Start(); err != nil {
+		return obs{Note: err.Error()}
+	}
+	go func() { fin <- cmd.Wait() }()
+	var o obs
+	select {
+	case <-fin:
+		b, rerr := os.ReadFile(outf)
+		if rerr != nil || json.Unmarshal(b, &o) != nil {
+			o = obs{Note: "child produced no result"}
+		}
+	case <-time.After(90 * time.Second):
+		cmd.Process.Kill()
+		o = obs{Note: "child timed out", Stuck: true}
+	}
+	return o
 }
 
 type logger struct {
@@ -312,7 +444,12 @@ func run(raw json.RawMessage) (hx.Case, error) {
 	if err := hx.UJ(raw, &in); err != nil {
 		return hx.Case{}, err
 	}
-	o := execute(in)
+	var o obs
+	if in.Scn == "live" {
+		o = liveChild(raw)
+	} else {
+		o = execute(in)
+	}
 	nev := len(in.Init)
 	var progTerms []string
 	// deterministic order of the association list
@@ -340,6 +477,8 @@ func run(raw json.RawMessage) (hx.Case, error) {
 		scn = hx.App("ScnInflight", hx.N(in.K))
 	case "idle":
 		scn = "ScnIdle"
+	case "live":
+		scn = hx.App("ScnLive", hx.N(uint64(in.Cycles)))
 	default:
 		scn = "ScnStress"
 	}
@@ -379,6 +518,10 @@ func run(raw json.RawMessage) (hx.Case, error) {
 		c.Tags = append(c.Tags, "pause:landed-mid-run")
 	}
 	c.Nontrivial = nev >= 2 && landed
+	if in.Scn == "live" {
+		c.Nontrivial = o.CyclesDone >= 100 || o.Stuck
+		c.Tags = append(c.Tags, fmt.Sprintf("live-cycles:%d", in.Cycles))
+	}
 	if !in.Par && (in.Scn == "inflight" || in.Scn == "stress") {
 		c.Known = "serial_pause_inflight_handler"
 	}
@@ -437,6 +580,16 @@ func gen(r *hx.Rand, tier string) []json.RawMessage {
 			add(input{Par: par, Init: init, Prog: prog, Scn: "idle"})
 		}
 	}
+	// liveness stress in a subprocess: thousands of back-to-back Pause / tiny spin / Continue cycles on a
+	// self-rescheduling chain; after every Continue the handled counter must advance (watchdog)
+	nLive, cyc := 2, 4000
+	if tier == "thorough" {
+		nLive, cyc = 6, 40000
+	}
+	for i := 0; i < nLive; i++ {
+		add(input{Par: false, Init: nil, Prog: map[string][]Ev{}, Scn: "live", Cycles: cyc, Seed: r.U64()})
+	}
+	add(input{Par: true, Init: nil, Prog: map[string][]Ev{}, Scn: "live", Cycles: cyc / 4, Seed: r.U64()})
 	for i := 0; i < nStress; i++ {
 		n := r.Range(40, 160)
 		init, prog := genProgram(r, n)
@@ -495,13 +648,17 @@ func shrink(raw json.RawMessage) []json.RawMessage {
 }
 
 func init() {
+	if len(os.Args) >= 4 && os.Args[1] == "c05child" {
+		child()
+		os.Exit(0)
+	}
 	hx.Register(&hx.Prop{
-		ID: "C05",
+		ID:      "C05",
 		Imports: "From Akita Require Import Lib.Base C05.Model C05.Exec.",
 		Rule: "replayed schedules on the real SerialEngine and ParallelEngine: (inflight) a handler signals 'entered' and blocks on a " +
 			"channel, another goroutine calls Pause, the harness records whether Pause returned under the blocked handler, releases it, " +
 			"waits (goroutine-stack poll, no sleeps) until the engine is parked / blocked on the pause lock / finished, then Continue; " +
-			"(idle) Pause before Run; (stress) a free-running controller issues 3..25 Pause/Continue pairs with random busy-loop gaps " +
+			"(idle) Pause before Run; (live, in a subprocess) thousands of back-to-back Pause / tiny random spin / Continue cycles on a self-rescheduling event chain with a watchdog that requires the handled-event counter to advance after every Continue (GOMAXPROCS >= 2); (stress) a free-running controller issues 3..25 Pause/Continue pairs with random busy-loop gaps " +
 			"while 40..160 events with random busy handlers run. Programs are random forests of 2..14 (deterministic scenarios) events, " +
 			"children at the same instant or later, primary or secondary. Non-trivial: >=2 events and some Pause returned before the " +
 			"last handler ended. Distinct = distinct input hash.",
